@@ -25,7 +25,7 @@ def _node(lines):
 
 
 def run(ctx):
-    ctx.prepare()
+    ctx.prepare(harness=["c02", "c16"])
     ctx.obligations("NGF.Props.C02")
     if ctx.tier == "thorough":
         ctx.leanchecker("NGF.Props.C02")
@@ -138,12 +138,14 @@ def run(ctx):
         frag["probes"] += t.get("probes", 0)
         # the hypotheses of route_refines_spec_fragment (Props/C02.lean), measured: the driver evaluates the equation on
         # exactly the (scenario, request) pairs inside them
-        in_thm = bool(t.get("noShadow")) and bool(t.get("namesPlain")) and bool(t.get("routesHaveRules"))
+        in_thm = bool(t.get("noShadow")) and bool(t.get("hostsDNS")) and bool(t.get("routesHaveRules"))
         frag["theorem_scenarios"] += in_thm
         frag["theorem_probes_evaluated"] += t.get("thmProbes", 0)
         frag["theorem_probes_excluded_by_reqOK"] += t.get("reqExcluded", 0)
-        if t.get("noShadow") and not t.get("namesPlain"):
-            frag["excluded_namesPlain"] += 1
+        if t.get("noShadow") and not t.get("hostsDNS"):
+            frag["excluded_hostsDNS"] += 1
+        if t.get("hostsDNS") and not t.get("namesPlain"):
+            ctx.broken("hostsDNS holds but namesPlain does not (contradicts namesPlain_from_hostDNS)", replay={"id": d["id"], "flat": d.get("flat")})
         if t.get("noShadow") and not t.get("routesHaveRules"):
             frag["excluded_routesHaveRules"] += 1
         if t.get("confEqual"):
@@ -161,6 +163,55 @@ def run(ctx):
             frag["spec_restatement_differs"] += 1
             ctx.broken("Pipeline.routeF (fragment specification) disagrees with Spec.GatewayAPI.route: " + t["specFail"][:700],
                        replay={"id": d["id"], "flat": d.get("flat"), "detail": t["specFail"]})
+
+    # HTTPS: route_refines_spec_https / sni_host_mismatch_421 (Props/C02.lean) executed on the fragment cases of harness/c16
+    # (C02's fragment scenarios + HTTPS listeners, Secrets, ReferenceGrants): nginxEvalConfT on the REAL http.conf (abstracted)
+    # and on genT vs routeT vs the full oracle, restricted exactly like the theorem
+    n_https = 150 if ctx.tier == "quick" else 4000
+    hl = ctx.harness(["-mode", "frag", "-seed", ctx.seed * 31 + 7, "-n", n_https], cmd="c16") or []
+    hl = [l for l in hl if l.startswith("{")]
+    https = collections.Counter()
+    https_out = collections.Counter()
+    https_why = collections.Counter()
+    if not hl:
+        ctx.broken("HTTPS stream: harness c16 (mode frag) produced no lines", detail="\n".join(ctx.build_errors))
+    for l, o in zip(hl, ctx.driver("pipelineT", hl) if hl else []):
+        try:
+            t = json.loads(o)
+        except Exception:
+            t = {"error": "undecodable"}
+        d = json.loads(l)
+        if "error" in t:
+            ctx.broken(f"pipelineT mode could not decode a harness line: {t}", replay={"line": l[:2000]})
+            continue
+        https["cases"] += 1
+        if not t.get("inFragment"):
+            https_why[t.get("why", "")[:70]] += 1
+            continue
+        https["in_fragment"] += 1
+        https["inside_theorem_scenarios"] += bool(t.get("hyp"))
+        for k in ("probes", "tlsProbes", "thmProbes", "thmTlsProbes", "exclSniServed", "exclShadow", "exclReq", "mismatchProbes"):
+            https[k] += t.get(k, 0)
+        for k, v in (t.get("outcomes") or {}).items():
+            https_out[k] += v
+        rep = {"id": d.get("id"), "flat": d.get("flat"), "files": d.get("files")}
+        if not t.get("realOK"):
+            https["real_not_abstractable"] += 1
+            if https["real_not_abstractable"] <= 3:
+                ctx.broken("HTTPS stream: the real http.conf is outside the shape Model/PipelineTlsTie.abstractConfT reads: " + t.get("realWhy", "")[:300], replay=rep)
+        for key, what, kind in (
+                ("thmFail", "route_refines_spec_https is false on a generated input (model genT)", "obligation"),
+                ("realFail", "HTTPS: NGINX on the REAL configuration differs from routeT inside the hypotheses of route_refines_spec_https", None),
+                ("realModelDiff", "HTTPS: the real configuration and genT mean different things on a probe", None),
+                ("specFail", "PipelineTls.routeT (specification for HTTPS) disagrees with Spec.GatewayAPI.route", None),
+                ("mismatchFail", "sni_host_mismatch_421 fails on a probe (SNI ≠ Host, both served)", None)):
+            if t.get(key):
+                https[key] += 1
+                if https[key] <= 3:
+                    kw = {"kind": kind} if kind else {}
+                    ctx.broken(what + ": " + t[key][:700], replay=dict(rep, detail=t[key]), **kw)
+    if hl and https["in_fragment"] and https["thmTlsProbes"] == 0:
+        ctx.broken("route_refines_spec_https was evaluated on no TLS probe")
 
     # correspondence of the proved cores with the real functions
     core_in = [(d, l) for d, l in parsed if d["k"] in ("H", "S", "L", "G", "N")]
@@ -221,7 +272,7 @@ def run(ctx):
                 "same scenario; non-trivial = distinct scenarios (flat form) for which at least one probe is prescribed a proxy, "
                 "redirect or passthrough outcome",
         "samples": samples,
-        "traces_validated_against_impl": validated + frag["conf_equal"],
+        "traces_validated_against_impl": validated + frag["conf_equal"] + https["thmProbes"],
         "correspondence_diffs": diffs,
         "line_kinds": dict(kinds),
         "profiles": dict(profiles),
@@ -233,6 +284,9 @@ def run(ctx):
         "pipeline_model_fragment": dict(frag),
         "pipeline_model_fragment_by_profile": dict(frag_by_profile),
         "pipeline_model_outside_fragment_reasons": dict(outside),
+        "https_refinement(route_refines_spec_https)": dict(https),
+        "https_refinement_outcomes_inside_theorem": dict(https_out),
+        "https_refinement_outside_fragment_reasons": dict(https_why),
         "hostname_reading_differences(DESIGN §8)": tot["hostReadingDiff"],
     }, assumptions=[
         "NGINX behaves as Model/NginxEval.lean says (server_name, location, rewrite/return, split_clients, stream map hostnames, "
